@@ -124,11 +124,16 @@ namespace lang
             return;
         }
 
+        // str may be the very object passed as to_replace or replacement; work on their original
+        // texts, not on what the replacements below turn them into
+        const std::string pattern(to_replace);
+        const std::string with(replacement);
+
         size_t start_pos = 0;
-        while ((start_pos = str.find(to_replace, start_pos)) != std::string::npos)
+        while ((start_pos = str.find(pattern, start_pos)) != std::string::npos)
         {
-            str.replace(start_pos, to_replace.length(), replacement);
-            start_pos += replacement.length();
+            str.replace(start_pos, pattern.length(), with);
+            start_pos += with.length();
         }
     }
 } // namespace lang
